@@ -88,7 +88,7 @@ def gen_case(rng, idx):
     if kind in ("route", "ifelse"):
         outs = []
     elif kind == "interrupt":
-        outs = rng.sample(["u", "v", "w"], 1)
+        outs = rng.sample(["u", "v", "w"], rng.choice([1, 1, 2, 3]))      # several outputs: the handler answers with a dict keyed by ITS names
     else:
         outs = rng.sample(["u", "v", "w", "o1"], rng.randint(1, 3))
     in_hist, out_hist = [], []
